@@ -221,7 +221,7 @@ func c09Tree(c c09Case, fromDoc bool) (*gen.Expr, interface{}) {
 
 func c09(r *mon.Run) {
 	r.Rule = "per function, exhaustive over a typed universe sized to its signature: 24 numbers (incl. -0, fractions, integers around 2^24, 2^53, 2^63, 2^64, 1e21, the float range ends), 12 strings (empty, ASCII, precomposed and decomposed é, astral), 33 number-like strings for to_number (JSON numbers and near misses: +1 .5 1. 0x10 0x1p-2 1_0 inf nan Infinity 1e999 …), every array over {-1,1,2} up to length 4 and over {a,b,é,B} up to length 3 (ties, duplicates), mixed/nested arrays, every object over keys a,b,c with values 1,\"x\",null (merge with 1-3 arguments, colliding keys), " +
-		"every array of up to 4 objects with tied / distinct number or string keys for sort_by, max_by, min_by, map (elements tagged with their index so stability and first-extremum are observable); arguments written as literals, read from the document, and read from a document whose arrays are Go-typed slices (docs.Typify); every call template in each of the 38 single-hole contexts of the grammar; contains / starts_with / ends_with / join / reverse / length / sort / max / min over every ordered pair of 40 strings chosen by relation (prefix, suffix, infix, equal, longer needle, overlapping repeats, separator inside an element, combining marks, astral, 300-byte runs); each call also nested in seeded random contexts; every function x 16 call shapes x 23 element patterns x 22 array lengths on and around internal thresholds (sized.go). " +
+		"every array of up to 4 objects with tied / distinct number or string keys for sort_by, max_by, min_by, map (elements tagged with their index so stability and first-extremum are observable); arguments written as literals, read from the document, and read from a document whose arrays are Go-typed slices (docs.Typify); every call template in each of the 38 single-hole contexts of the grammar; contains / starts_with / ends_with / join / reverse / length / sort / max / min over every ordered pair of 40 strings chosen by relation (prefix, suffix, infix, equal, longer needle, overlapping repeats, separator inside an element, combining marks, astral, 300-byte runs); each call also nested in seeded random contexts; every function x 16 call shapes x 25 element patterns x 36 array lengths on and around internal thresholds (sized.go). " +
 		"node-kind pairs: 49 representatives of every node kind in each of the 38 single-hole grammar contexts and in every context of every context, on 3 documents (the trees this property owns: a function call). Oracle: ref function semantics (relational for to_string: any JSON text that decodes back; keys/values: any permutation). Non-trivial = distinct (expression, document) with a non-error expected result; per-function counts in the evidence."
 	r.Exhaustive = true
 	r.Floor = 3000
